@@ -20,6 +20,7 @@ import (
 // Keyer computes keys for the values of one function.
 type Keyer struct {
 	fwdDepth     int
+	fwdOK        map[*ssa.Alloc]bool
 	P            *Prog
 	Fn           *ssa.Function
 	memo         map[ssa.Value]string
@@ -309,6 +310,25 @@ func (k *Keyer) key(v ssa.Value) string {
 	case *ssa.UnOp:
 		switch x.Op {
 		case token.MUL:
+			// a load of a local that never escapes, right after a store to it in the same block, is the stored value
+			// (`err = f(); if err != nil`, with err a named result assigned several times)
+			if al, ok := x.X.(*ssa.Alloc); ok && !k.captured[al] && k.fwdLoad(al) {
+				b := x.Block()
+				pos := -1
+				for i, in := range b.Instrs {
+					if in == ssa.Instruction(x) {
+						pos = i
+					}
+				}
+				for i := pos - 1; i >= 0; i-- {
+					if st, ok := b.Instrs[i].(*ssa.Store); ok && st.Addr == ssa.Value(al) {
+						if sk := k.Key(st.Val); !strings.Contains(sk, "alloc@"+k.ids[al]) {
+							return sk
+						}
+						break
+					}
+				}
+			}
 			xs := k.Key(x.X)
 			if strings.HasPrefix(xs, "&[") && strings.HasSuffix(xs, "]") && balanced(xs[2:len(xs)-1]) {
 				return xs[2 : len(xs)-1]
@@ -603,4 +623,35 @@ func forwardedCall(p *Prog, fn *ssa.Function) *ssa.Call {
 	}
 	fwdMemo[fn] = inner
 	return inner
+}
+
+// fwdLoad: the local is only stored to and loaded from (its address goes nowhere else), so a load
+// sees the last store on the path.
+func (k *Keyer) fwdLoad(al *ssa.Alloc) bool {
+	if v, ok := k.fwdOK[al]; ok {
+		return v
+	}
+	if k.fwdOK == nil {
+		k.fwdOK = map[*ssa.Alloc]bool{}
+	}
+	ok := true
+	if refs := al.Referrers(); refs != nil {
+		for _, r := range *refs {
+			switch x := r.(type) {
+			case *ssa.Store:
+				if x.Addr != ssa.Value(al) {
+					ok = false
+				}
+			case *ssa.UnOp:
+				if x.Op != token.MUL {
+					ok = false
+				}
+			case *ssa.DebugRef:
+			default:
+				ok = false
+			}
+		}
+	}
+	k.fwdOK[al] = ok
+	return ok
 }
